@@ -66,9 +66,9 @@ var checks = map[string]checkCfg{
 			rp("rapid", "^TestC07$", 4, 1500, 16, 15000),
 			{Name: "fuzz", Variant: "plain", ThoroughOnly: true, Fuzz: "^FuzzC07$", FuzzSeconds: 120, ThoroughShards: 1}}},
 	"C08": {Level: "exploration", Technique: "rapid histories of all procedures (well-formed/truncated/garbage) vs backend recorder + snapshot",
-		Rule:        "cases are rapid-generated histories of NFSv3 procedures 0..23 and MOUNT procedures with well-formed arguments on pre-seeded objects, arguments truncated at a 4-byte boundary or followed by random bytes, under four credentials, interleaved with read-only on/off switches through UpdatePolicyOptions and UpdateExportOptions; non-trivial = while read-only is in force a well-formed mutating procedure (SETATTR..COMMIT) was issued by an accepted credential; anti-vacuity label counts mutations that succeed while read-write; distinct = FNV-64 of the case JSON",
+		Rule:        "cases are rapid-generated histories of NFSv3 procedures 0..23 and MOUNT procedures with well-formed arguments on pre-seeded objects, arguments truncated at a 4-byte boundary or followed by random bytes, under four credentials, interleaved with read-only on/off switches through UpdatePolicyOptions and UpdateExportOptions; non-trivial = while read-only is in force a well-formed mutating procedure (SETATTR..COMMIT) was issued by an accepted credential; anti-vacuity label counts mutations that succeed while read-write; phase drain parks one mutating request (8 procedures, optionally timed out at the RPC level) inside the backend, switches the export to read-only and releases the request: no modifying backend call may start after the switch returned; distinct = FNV-64 of the case JSON",
 		Assumptions: baseAssumptions,
-		Phases:      []phase{rp("rapid", "^TestC08$", 6, 1500, 16, 15000)}},
+		Phases:      []phase{rp("rapid", "^TestC08$", 6, 1500, 16, 15000), rp("drain", "^TestC08Drain$", 4, 20, 8, 200)}},
 	"C09": {Level: "exploration", Technique: "rapid allow-lists/addresses; three-way differential against a bit-level membership oracle + request gate",
 		Rule:        "each case draws an allow-list of 0-4 entries (single IPv4/IPv6 addresses, CIDRs of every prefix length 0-32/0-128, IPv4-mapped forms, malformed entries), the Secure flag and 4-16 probes (client placed at network-1, network, last, last+1, inside, outside, mapped and malformed forms; ports 0,1,1023,1024,1025,65535; any program/procedure); every probe is one decision compared three ways and one full request through HandleCall; non-trivial = the list is non-empty and the decision involves a CIDR or an IPv4-mapped client; distinct = FNV-64 of the case JSON; label decisions counts single decisions",
 		Assumptions: append([]string{"zoned client strings and IPv4-mapped CIDR entries shorter than /96 are generated but only checked for no-over-grant and agreement between the two filters (the statement does not define them)"}, baseAssumptions...),
@@ -94,9 +94,10 @@ var checks = map[string]checkCfg{
 			{Name: "fuzz-call", Variant: "plain", ThoroughOnly: true, Fuzz: "^FuzzC13Call$", FuzzSeconds: 90, ThoroughShards: 1},
 			{Name: "fuzz-record", Variant: "plain", ThoroughOnly: true, Fuzz: "^FuzzC13Record$", FuzzSeconds: 90, ThoroughShards: 1}}},
 	"C14": {Level: "exploration", Technique: "rapid requests x server states; every reply strictly decoded by the independent RFC 1831/1813 decoder",
-		Rule:        "each case fixes a server state (normal, read-only, per-operation rate limits exhausted, connection-level rate limit over a record-marking connection, policy drain established by parking a request on a backend gate while UpdatePolicyOptions waits) and issues 1-12 calls with program in {NFS, MOUNT, portmap number, 0, random}, version 0-4, procedure 0-23, arguments well-formed (live/stale/foreign handles, valid/invalid names), truncated at a 4-byte cut, random or over-long; non-trivial = some reply was not NFS3_OK/success, or the state is not normal; distinct = FNV-64 of the case JSON",
+		Rule:        "each case fixes a server state (normal, read-only, per-operation rate limits exhausted, connection-level rate limit over a record-marking connection, policy drain established by parking a request on a backend gate while UpdatePolicyOptions waits) and issues 1-12 calls with program in {NFS, MOUNT, portmap number, 0, random}, version 0-4, procedure 0-23, arguments well-formed (live/stale/foreign handles, valid/invalid names), truncated at a 4-byte cut, random or over-long; non-trivial = some reply was not NFS3_OK/success, or the state is not normal; phase concurrent-race runs 2-6 client goroutines x 5-40 overlapping calls (READs of files with distinct sizes and contents, WRITE, GETATTR, LOOKUP, READDIR(PLUS), ACCESS, READLINK, FSINFO) in a -race binary and decodes every reply strictly; distinct = FNV-64 of the case JSON",
 		Assumptions: append([]string{"MOUNT v1 result bodies are not judged (only v3 is in the statement)"}, baseAssumptions...),
-		Phases:      []phase{rp("rapid", "^TestC14$", 6, 1200, 16, 15000)}},
+		Phases: []phase{rp("rapid", "^TestC14$", 6, 1200, 16, 15000),
+			{Name: "concurrent-race", Variant: "race", Tests: "^TestC14Concurrent$", QuickShards: 3, QuickChecks: 60, ThoroughShards: 8, ThoroughChecks: 800}}},
 	"C15": {Level: "exploration", Technique: "rapid structured stream mutation + native fuzz against the record-marking connection loop; reply-stream invariant vs reference stream parser",
 		Rule:        "each case is a byte stream for one record-marking connection: 1-8 records, each a valid call of any program/procedure (or raw garbage) with 0-3 mutations (truncation, bit flip, a 4-byte word replaced by a hostile constant, appended bytes), an arbitrary fragmentation and framing games (missing last-fragment flag, lying fragment length, stray fragment headers); a reference parser decides which records a conformant server can decode; non-trivial = the stream holds >=1 decodable call and >=1 mutated/garbage record (every fuzz input counts); distinct = FNV-64 of the case JSON; thorough adds a native fuzz campaign seeded with valid calls and hostile constants",
 		Assumptions: append([]string{"a stream that simply ends inside a record does not oblige the server to close the connection before its read timeout; only complete undecodable records do", "allocation bound: 16 x bytes sent + records x (6 x 64 KiB + 64 KiB) + 8 MiB (TotalAlloc of the whole process)"}, baseAssumptions...),
